@@ -65,6 +65,10 @@ def build_series(cfg):
             # repopulation in the following round)
             pos_o = int(rng.integers(0, T))
             x[pos_o] = means[0] + (12.0 + 6.0 * j) * (1 if j % 2 == 0 else -1)
+        if cfg.get("excursion"):
+            # a short excursion of a few consecutive rows to a far-away level: a cluster with a handful of members
+            pos_e = int(rng.integers(5, max(6, T - 10)))
+            x[pos_e:pos_e + int(cfg["excursion"])] = means[0] + 25.0 + rng.normal(0, 0.3, size=(min(int(cfg["excursion"]), T - pos_e), N))
         if cfg.get("duplicate_rows"):
             k = max(1, T // 3)
             x[T - k:] = x[:k]
@@ -74,6 +78,16 @@ def build_series(cfg):
             arr = buffers.reuse(f"e2e.series.{si}", arr)       # same array object as in earlier runs of this process
         out.append(arr)
     cfg.pop("_last_reg", None)
+    if cfg.get("series_as_views") and len(out) >= 2:
+        # pieces of one recording handed over in another order than they lie in memory (row-slice views of one owner)
+        rngv = np.random.default_rng(cfg["data_seed"] + 7)
+        order = [int(i) for i in rngv.permutation(len(out))]
+        owner = np.vstack([out[i] for i in order])
+        views, pos = {}, 0
+        for i in order:
+            views[i] = owner[pos:pos + len(out[i])]
+            pos += len(out[i])
+        out = [views[i] for i in range(len(out))]
     return out
 
 
